@@ -66,6 +66,14 @@ CLAIMED["C08"] = ("kill sets + interprocedural reads-before-kill dataflow, who-m
     "(complete over all paths, through callee summaries). Schedule clause: complete modulo trusted crates - no UnsafeCell reachable from Predictor, "
     "shared-reference-only call graph, no mutable statics/thread-locals, Send+Sync witness; hence results are functions of (*self,*sentence). "
     "Output equality as values is not decided.", "DESIGN.md §4 C08")
+CLAIMED["C15"] = ("effect confinement (who-may-call) + API-surface scan + compile-fail witnesses; finite-domain abstract interpretation of the filters' rule tables",
+    "Complete decision of the frame clause (filters can only reach boundaries resp. tags; text/types immutable through the public API) and of the "
+    "idempotence-by-shape argument (single constant label, no read of boundary contents); complete decision of the wsconst (per type), line-break and "
+    "tagger rule tables and index forms. Grapheme segmentation and unchecked-index ranges are not decided here.", "DESIGN.md §4 C15")
+CLAIMED["C16"] = ("table extraction by abstract interpretation of the normaliser (complete for that clause), event-order and form rules on the tantivy stream, table agreement across four tools",
+    "Complete for the normaliser clause: one push per character, identity default, idempotent 1:1 table (all 96+ entries derived from MIR). "
+    "Structural decision of the token-stream pipeline, offsets from the original text, advance() forms, the letter tables of tantivy/predict/evaluate/kytea "
+    "and the copy sites. One open known finding (NUL in tantivy input).", "DESIGN.md §4 C16")
 NOT_YET = {}
 
 def main():
